@@ -440,7 +440,7 @@ def essential(v, path="", depth=0):
 def evaluate(values, lane="rel", prefix="j"):
     """returns list of (klass, detail, text, obs)"""
     cases = [core.Case("%s%d" % (prefix, i), "json.roundtrip", encode(v)) for i, v in enumerate(values)]
-    obs = core.run_cases(cases, lane=lane)
+    obs = core.run_cases(cases, lane=lane, poison="json")
     res = []
     for i, v in enumerate(values):
         o = obs.get(cases[i].id)
